@@ -9,6 +9,9 @@ tie:   Gen_SshConfig.v regenerated from scrapli/ssh_config.py on every run (HOST
        model (build / lookup, run by vm_compute on the real _parse() output) against the real merged
        dict and the real lookup results, (S) the Python oracle against Coq's spec_lookup, and the
        oracle (spec) against the real lookup results.
+       + correspondence `sshconfig-cache-history` (harness/c16_cache.py): histories of lookups and driver
+       constructions on the per-path cache of parsed files (ssh_config_factory), oracle per operation,
+       model srun (cache as state) on the same histories.
 """
 import base64
 import hashlib
@@ -18,7 +21,7 @@ import os
 import re
 import tempfile
 
-from . import common
+from . import c16_cache, common
 from .common import coq_bytes, coq_list
 
 LEVEL = "proof"
@@ -995,10 +998,16 @@ def run(rep):
             cases_k.append({"text": text, "names": names, "malformed": malformed})
     bad_k, log_k = common.eval_cases(rep.workdir, "cases_c16k", HEADER_K, terms_k, "chk", shard=100)
 
+    # 5. histories on the per-path cache of parsed files (ssh_config_factory): direct lookups and driver constructions
+    #    (last, so that the streams above are the same inputs as before for a given seed)
+    terms_h, cases_h = c16_cache.run_suite(rep, stats)
+    bad_h, log_h = common.eval_cases(rep.workdir, "cases_c16h", c16_cache.HEADER_H, terms_h, "chk", shard=12)
+
     rep.coverage["correspondence"] = {
         "suite": "sshconfig-roundtrip",
         "model_cases_ssh_config": len(terms_m), "model_disagreements_ssh_config": None if bad_m is None else len(bad_m),
         "spec_cases": len(terms_s), "oracle_vs_coq_spec_disagreements": None if bad_s is None else len(bad_s),
+        "model_cases_cache_histories": len(terms_h), "model_disagreements_cache_histories": None if bad_h is None else len(bad_h),
         "model_cases_known_hosts": len(terms_k), "model_disagreements_known_hosts": None if bad_k is None else len(bad_k),
         "distribution": stats, "known_hosts_distribution": kstats}
     rep.coverage["generated_from"] = common.source_hashes(SOURCES)
@@ -1009,7 +1018,10 @@ def run(rep):
                 "names; a pair is 'tame' when scrapli's algorithm with whole-name matching and the specification agree (the oracle is strict "
                 "there), otherwise it lies in a known-finding region and a mismatch must be exactly the reference algorithm's answer; "
                 "non-trivial = the name is matched by an entry other than the default Host *; distinct = (file text, name). "
-                "known_hosts: plain / comma-listed / hashed ids, recorded and unrecorded names; malformed lines: model only")
+                "known_hosts: plain / comma-listed / hashed ids, recorded and unrecorded names; malformed lines: model only. "
+                "cache histories: 1-2 generated files (most entries set port / user / identity file) at fresh paths, 3-9 operations (55% driver construction: "
+                "BaseDriver / Driver+paramiko / AsyncDriver+asyncssh, each of port / user / key explicit or omitted; 35% lookup through the factory; 10% lookup on a "
+                "new parse), names mostly tame, 40% the same host again, two instantiations of wildcard entries; a dump of every cached entry closes each history")
     if stats["tame_pairs"] < 5 * max(1, stats["region_pairs"]) // 10:
         rep.notes.append("generator drift: only %d tame pairs for %d region pairs" % (stats["tame_pairs"], stats["region_pairs"]))
 
@@ -1027,6 +1039,14 @@ def run(rep):
         rep.broken.append("correspondence known_hosts: model differs from implementation")
         rep.notes.append("first: %r" % (cases_k[bad_k[0]],))
         # search: the oracle over the recorded names of the disagreeing files was already run above
+    if bad_h is None:
+        rep.broken.append("correspondence sshconfig-cache-history (model evaluation failed)")
+        rep.notes.append(log_h)
+    elif bad_h:
+        # the oracle ran on every operation of these histories already (a failure there is a VIOLATION line)
+        rep.broken.append("correspondence sshconfig-cache-history: model (cache as state, no writer) differs from "
+                          "implementation on %d histories" % len(bad_h))
+        rep.notes.append("first: %r" % (cases_h[bad_h[0]],))
     if bad_m is None:
         rep.broken.append("correspondence sshconfig-roundtrip (M) (model evaluation failed)")
         rep.notes.append(log_m)
@@ -1065,6 +1085,8 @@ def search_near(rep, rng, cases, stats):
 
 def replay(path):
     r = json.load(open(path))
+    if r.get("kind") == "ssh_config_history":
+        return 0 if c16_cache.replay_history(r) else 1
     if "text" not in r:
         print("nothing to replay (no concrete input): %s" % r.get("what"))
         return 1
@@ -1088,17 +1110,37 @@ MANIFEST = {
             "(lookup_refines_spec_partial) for files whose Host lines do not occur in each other, names on which search = whole match and which exactly one "
             "non-default entry matches: partial. known_hosts: the dict is exactly 'last line listing the name' for every name; plain / comma-listed / hashed "
             "lookups return the recorded key and nothing for another host, for ANY hmac/base64 functions, under the named no-collision premise. "
+            "The process-wide cache of parsed files (SSHConfig._config_files behind ssh_config_factory) is state of the model (srun: path -> the live parsed "
+            "dict; operations: lookup through the factory, driver construction with explicit/omitted port, user, key, dump of the cached entries): on EVERY "
+            "history over any paths and names the cached parse stays build(file) and every output is that of a fresh parse (cache_invisible), given that "
+            "nothing writes to the Host object lookup hands out -- a fact read from the source by ast on every run (no attribute store / del / augmented "
+            "assignment / setattr on a name bound from .lookup() in base_driver.py and ssh_config.py, lookup and _lookup_fuzzy_match store nothing, the "
+            "factory keys the cache by its path argument); with a writer the statement is refuted by a vm_compute witness (cache_visible_when_written). "
             "Tie: Gen_SshConfig.v regenerated from the source on every run (HOST_ATTRS, Host() defaults, the pattern->regex expression taken out of the source by "
             "ast and classified per character by behaviour under CPython's re, re.search + re.I, the '<' of the best-match choice, known_hosts constants); "
             "the model is run by vm_compute on the REAL _parse() output of generated files and must reproduce the real merged dict and every lookup; "
-            "_parse itself (regex splitting) is confronted with the generator's structure, not modelled: parse by correspondence only.",
-    "note": "Trusted: Coq kernel + vm_compute; the hand model coq/model/SshConfig.v, KnownHosts.v (tied by correspondence only); the hand-written spec_lookup "
+            "_parse itself (regex splitting) is confronted with the generator's structure, not modelled: parse by correspondence only. "
+            "Correspondence `sshconfig-cache-history` (harness/c16_cache.py): histories of (ssh_config_factory(path).lookup | BaseDriver / Driver+paramiko / "
+            "AsyncDriver+asyncssh construction with explicit or omitted port, auth_username, auth_private_key | SSHConfig(path).lookup on a new parse)* "
+            "on one path or on two paths with the same base name, closed by a dump of every cached entry; every observation (looked-up entry; the "
+            "driver's port, auth_username, auth_private_key and the port handed to the transport) is compared with the specification lookup on the file's "
+            "structure where that is decided without the real code ('tame' pairs), else with a parse of the same text taken before the history and never "
+            "cached; a failing history is shrunk and written to the replay file; the model (srun, no writer) is run by vm_compute on the real _parse() "
+            "output of the files and must reproduce every observation of every history.",
+    "note": "Trusted: Coq kernel + vm_compute; the hand model coq/model/SshConfig.v (incl. the cache state machine sstep/apply_cfg), KnownHosts.v (tied by "
+            "correspondence only); the ast reading of 'nothing writes to the looked-up object' in gen/gen_sshconfig.py (fail-closed: any use of the "
+            "lookup result other than an attribute read aborts; writes through other modules, e.g. a transport plugin, are not read -- the histories "
+            "would show them); the cache model assumes the files do not change during a history (a rewritten file behind a cached path is outside the "
+            "property's quantifier and not explored); the [writes = true] model is ONE writer (blank the explicitly given options), used only for the "
+            "refutation; the hand-written spec_lookup "
             "(cross-checked against the independent Python oracle on every run); gen/gen_sshconfig.py; CPython's re/shlex/hmac/base64. Section variables: hmac, b64dec "
             "(no hypotheses on them; the no-collision condition is a premise per entry). Observed only (not proved): _parse on generated files of the supported "
             "grammar (ASCII; names incl. 'host' and regex metacharacters, not backslash/quotes/#); the agreement lookup = specification outside the class of the "
             "partial theorem (oracle on 'tame' pairs; in the two known-finding regions a mismatch must equal the reference algorithm's answer). "
             "Known findings: unanchored match (pinned by a unit test), inheritance by pattern text, known_hosts lines with a 4th field. "
             "Fixed in the worktree: re.escape of patterns, line-anchored Host block splitting, HostName inheritance, key types with @/.",
-    "technique": "Coq proofs by induction over the merge loops / dict invariants, refutation of the full statement by vm_compute witnesses, "
-                 "vm_compute correspondence of the model against the real SSHConfig / SSHKnownHosts on generated files, independent Python oracle",
+    "technique": "Coq proofs by induction over the merge loops / dict invariants and over histories of the cache state machine (invariant cached = "
+                 "build(file)), refutation of the full statement by vm_compute witnesses, "
+                 "vm_compute correspondence of the model against the real SSHConfig / SSHKnownHosts / ssh_config_factory + driver construction on "
+                 "generated files and histories, independent Python oracle",
 }
